@@ -148,11 +148,9 @@ def run_driver(lines):
 def ensure_built():
     """(Re)build the Coq development, the extracted model and the driver (incremental)."""
     BUILD.mkdir(exist_ok=True)
-    with open(BUILD / ".lock", "w") as lk:
-        fcntl.flock(lk, fcntl.LOCK_EX)
-        p = subprocess.run(["timeout", "3400", "make", "-C", str(VERIF), "setup"],
-                           stdout=subprocess.PIPE, stderr=subprocess.STDOUT)
-        return p.returncode, p.stdout.decode(errors="replace")
+    p = subprocess.run(["timeout", "3400", "make", "-C", str(VERIF), "setup"],
+                       stdout=subprocess.PIPE, stderr=subprocess.STDOUT)
+    return p.returncode, p.stdout.decode(errors="replace")
 
 
 def grep_gate():
